@@ -1,11 +1,12 @@
 import KdVerif.Model.PyIRCn
 import KdVerif.Spec.PyIRCnExpected
+import KdVerif.Proofs.Reader
 /-
   Lemmas of the translation tie of the construct DECLARATIONS (`Model/PyIRCn`): the expected declarations, run by
   `Con.parse`, are the hand models of `Model/Construct` / `Model/ContainerV2` / `Model/ContainerV3`.
 -/
 namespace KdVerif.PyIRCn
-open KdVerif
+open KdVerif Reader
 
 /-! ### the reader monad is lawful -/
 
@@ -230,6 +231,150 @@ theorem project_kd_header_v3 (env : Env) (ctx : List (String × CVal)) :
     simp only [RM.pure_bind']
     exact project_pure _ _ _ (toHeaderV3_struct ..)
 
+/-! ### `GreedyRange(kd_threadmap)` on a sub-stream -/
+
+theorem readExact_case {n : Nat} (hn : n < ssizeLimit) (r : Reader) :
+    (n ≤ r.rest.length ∧ ∃ r', readExact n r = (.ok (r.rest.take n), r') ∧ r'.rest = r.rest.drop n) ∨
+    (r.rest.length < n ∧ ∃ r', readExact n r = (.error .streamError, r')) := by
+  rw [readExact_small hn]
+  by_cases h : n ≤ r.rest.length
+  · left
+    refine ⟨h, (r.read n).2, ?_, read_rest r n⟩
+    have : (r.read n).1.length = n := by simp [List.length_take]; omega
+    rw [if_pos this]; rfl
+  · right
+    refine ⟨by omega, (r.read n).2, ?_⟩
+    have : ¬ (r.read n).1.length = n := by simp [List.length_take]; omega
+    rw [if_neg this]
+
+theorem cstringOf_err {b : Bytes} {e : PyErr} (h : cstringOf b = .error e) : e = .streamError := by
+  unfold cstringOf at h
+  dsimp only at h
+  split at h
+  · injection h with h; exact h.symm
+  · split at h
+    · cases h
+    · injection h with h; exact h.symm
+
+/-- `kd_threadmap` on a reader: fewer than 32 bytes left is a StreamError; otherwise the 32 bytes are consumed and the
+    outcome is `threadEntryOf` of them. -/
+theorem threadEntry_case (r : Reader) :
+    (r.rest.length < 32 ∧ ∃ r', threadEntry r = (.error .streamError, r')) ∨
+    (32 ≤ r.rest.length ∧ ∃ r', r'.rest = r.rest.drop 32 ∧
+      ((∃ e, threadEntryOf (r.rest.take 32) = some e ∧ threadEntry r = (.ok e, r')) ∨
+       (threadEntryOf (r.rest.take 32) = none ∧ threadEntry r = (.error .streamError, r')))) := by
+  unfold threadEntry
+  rcases readExact_case (n := 8) (by decide) r with ⟨h8, r1, e1, c1⟩ | ⟨h8, r1, e1⟩
+  · have i1 : int64ul r = (.ok (leNat (r.rest.take 8)), r1) := by unfold int64ul; rw [RM.bind_ok e1]; rfl
+    rcases readExact_case (n := 4) (by decide) r1 with ⟨h4, r2, e2, c2⟩ | ⟨h4, r2, e2⟩
+    · have i2 : int32ul r1 = (.ok (leNat (r1.rest.take 4)), r2) := by unfold int32ul; rw [RM.bind_ok e2]; rfl
+      rcases readExact_case (n := 0x14) (by decide) r2 with ⟨h20, r3, e3, c3⟩ | ⟨h20, r3, e3⟩
+      · right
+        rw [c1, List.length_drop] at h4
+        rw [c2, c1, List.length_drop, List.length_drop] at h20
+        refine ⟨by omega, r3, by rw [c3, c2, c1]; simp [List.drop_drop], ?_⟩
+        have hname : r2.rest.take 0x14 = ((r.rest.take 32).drop 12).take 20 := by
+          rw [c2, c1]; simp [List.drop_drop, List.take_drop, List.take_take]
+        have ht : leNat (r.rest.take 8) = leNat ((r.rest.take 32).take 8) := by simp [List.take_take]
+        have hp : leNat (r1.rest.take 4) = leNat (((r.rest.take 32).drop 8).take 4) := by
+          rw [c1]; simp [List.take_drop, List.take_take]
+        have hf : fixedCString 0x14 r2 = (match cstringOf (r2.rest.take 0x14) with
+            | .ok s => (.ok s, r3) | .error e => (.error e, r3)) := by
+          unfold fixedCString; rw [e3]; rfl
+        cases hc : cstringOf (((r.rest.take 32).drop 12).take 20) with
+        | ok s =>
+          left
+          refine ⟨⟨leNat ((r.rest.take 32).take 8), leNat (((r.rest.take 32).drop 8).take 4), s⟩, ?_, ?_⟩
+          · unfold threadEntryOf; rw [hc]
+          · rw [RM.bind_ok i1, RM.bind_ok i2]
+            rw [RM.bind_ok (show fixedCString 0x14 r2 = (.ok s, r3) by rw [hf, hname, hc])]
+            rw [ht, hp]; rfl
+        | error err =>
+          right
+          have herr : err = .streamError := cstringOf_err hc
+          subst herr
+          refine ⟨by unfold threadEntryOf; rw [hc], ?_⟩
+          rw [RM.bind_ok i1, RM.bind_ok i2]
+          rw [RM.bind_err (show fixedCString 0x14 r2 = (.error .streamError, r3) by rw [hf, hname, hc])]
+      · left
+        rw [c2, c1, List.length_drop, List.length_drop] at h20
+        refine ⟨by omega, r3, ?_⟩
+        rw [RM.bind_ok i1, RM.bind_ok i2]
+        rw [RM.bind_err (show fixedCString 0x14 r2 = (.error .streamError, r3) by unfold fixedCString; rw [e3])]
+    · left
+      rw [c1, List.length_drop] at h4
+      refine ⟨by omega, r2, ?_⟩
+      rw [RM.bind_ok i1]
+      rw [RM.bind_err (show int32ul r1 = (.error .streamError, r2) by unfold int32ul; rw [RM.bind_err e2])]
+  · left
+    refine ⟨by omega, r1, ?_⟩
+    rw [RM.bind_err (show int64ul r = (.error .streamError, r1) by unfold int64ul; rw [RM.bind_err e1])]
+
+/-- `GreedyRange(kd_threadmap)` on a reader, with enough fuel, is the hand model's pure `greedyEntriesAux` of the
+    unread bytes. -/
+theorem greedyRange_threadEntry : ∀ (fuel : Nat) (r : Reader), r.rest.length / 32 + 1 ≤ fuel →
+    (greedyRange threadEntry fuel r).1 = .ok (greedyEntriesAux (r.rest.length / 32 + 1) r.rest)
+  | 0, _, h => by omega
+  | fuel + 1, r, h => by
+    rcases threadEntry_case r with ⟨hlt, r', e⟩ | ⟨hge, r', c, ⟨e, he, e1⟩ | ⟨he, e1⟩⟩
+    · simp only [greedyRange, e, greedyEntriesAux, if_pos hlt]
+    · have hlen : r'.rest.length / 32 + 1 = r.rest.length / 32 := by
+        rw [c, List.length_drop]; omega
+      have ih := greedyRange_threadEntry fuel r' (by omega)
+      have hnlt : ¬ r.rest.length < 32 := by omega
+      simp only [greedyRange, e1, greedyEntriesAux, if_neg hnlt, he]
+      cases hg : greedyRange threadEntry fuel r' with
+      | mk y r'' =>
+        rw [hg, hlen, c] at ih
+        simp only at ih
+        subst ih
+        rfl
+    · have hnlt : ¬ r.rest.length < 32 := by omega
+      simp only [greedyRange, e1, greedyEntriesAux, if_neg hnlt, he]
+
+/-! ### kd_v3_threadmap -/
+
+/-- `kd_v3_threadmap` once the module has run -/
+def kd_v3_threadmapR : Con :=
+  .struct (.cons (some "threadmap") (.prefixed64 (.greedyRange Expected.kd_threadmap)) .nil)
+
+theorem onSub_greedyEntries (f : Reader → Nat) (b : Bytes) (hf : b.length / 32 + 1 ≤ f (Reader.ofBytes b)) :
+    onSub b (fuelM f >>= fun fuel => greedyRange threadEntry fuel >>= fun l =>
+      (pure (CVal.list (l.map ThreadEntry.toCVal)) : RM CVal)) =
+    pure (CVal.list ((greedyEntries b).map ThreadEntry.toCVal)) := by
+  funext r
+  have hr : (Reader.ofBytes b).rest = b := rfl
+  have hg := greedyRange_threadEntry (f (Reader.ofBytes b)) (Reader.ofBytes b) (by rw [hr]; exact hf)
+  rw [hr] at hg
+  show ((RM.bind' (fuelM f) (fun fuel => RM.bind' (greedyRange threadEntry fuel) (fun l =>
+      RM.pure' (CVal.list (l.map ThreadEntry.toCVal)))) (Reader.ofBytes b)).1, r) = _
+  unfold RM.bind' fuelM
+  dsimp only
+  cases hx : greedyRange threadEntry (f (Reader.ofBytes b)) (Reader.ofBytes b) with
+  | mk y r2 =>
+    rw [hx] at hg
+    simp only at hg
+    subst hg
+    rfl
+
+theorem toThreadmapV3_struct (l : List ThreadEntry) :
+    CVal.toThreadmapV3 (.struct [("threadmap", .list (l.map ThreadEntry.toCVal))]) = some l := by
+  show CVal.toThreadList (l.map ThreadEntry.toCVal) = some l
+  exact toThreadList_map l
+
+theorem project_kd_v3_threadmap (env : Env) (ctx : List (String × CVal))
+    (hf : ∀ b : Bytes, b.length / 32 + 1 ≤ env.fuel (Reader.ofBytes b)) :
+    project CVal.toThreadmapV3 (kd_v3_threadmapR.parse env ctx) =
+      (prefixedBytes >>= fun payload => pure (greedyEntries payload)) := by
+  simp only [kd_v3_threadmapR, Con.parse, Fields.parse, mapRM_bind, List.nil_append, parse_kd_threadmap,
+    greedyRange_mapRM, RM.bind_assoc', project_bind]
+  unfold prefixedBytes
+  simp only [RM.bind_assoc']
+  iterate 2 (apply RM.bind_congr'; intro _)
+  rename_i b
+  rw [onSub_greedyEntries _ _ (hf b), RM.pure_bind']
+  exact project_pure _ _ _ (toThreadmapV3_struct _)
+
 /-! ### what the module binds the names to -/
 
 theorem decl_kd_threadmap : Expected.module.decl "kd_threadmap" = Expected.kd_threadmap := by decide
@@ -237,5 +382,7 @@ theorem decl_kd_threadmap : Expected.module.decl "kd_threadmap" = Expected.kd_th
 theorem decl_kd_header_v2 : Expected.module.decl "kd_header_v2" = kd_header_v2R := by decide
 
 theorem decl_kd_header_v3 : Expected.module.decl "kd_header_v3" = Expected.kd_header_v3 := by decide
+
+theorem decl_kd_v3_threadmap : Expected.module.decl "kd_v3_threadmap" = kd_v3_threadmapR := by decide
 
 end KdVerif.PyIRCn
